@@ -771,12 +771,29 @@ class Class(Node):
         # Exclude the root node's name
         return ComponentRef.from_tuple(tuple(reversed(names[:-1])))
 
+    def _is_placeholder(self) -> bool:
+        """True for a package without content of its own, e.g. one created for a 'within' clause"""
+        return self.type == "package" and not (
+            self.symbols
+            or self.imports
+            or self.extends
+            or self.equations
+            or self.initial_equations
+            or self.statements
+            or self.initial_statements
+            or self.functions
+        )
+
     def _extend(self, other: "Class") -> None:
         for class_name in other.classes.keys():
-            if class_name in self.classes.keys():
-                self.classes[class_name]._extend(other.classes[class_name])
-            else:
+            if class_name not in self.classes.keys():
                 self.classes[class_name] = other.classes[class_name]
+            elif self.classes[class_name]._is_placeholder():
+                # Keep the real definition, whichever tree it comes from
+                other.classes[class_name]._extend(self.classes[class_name])
+                self.classes[class_name] = other.classes[class_name]
+            else:
+                self.classes[class_name]._extend(other.classes[class_name])
 
     @property
     def root(self):
